@@ -152,3 +152,97 @@ func decodePropTable(c *Ctx, pr *PropertyRun, prop string) {
 	}
 	r.RequireRole("decision-table")
 }
+
+// decodeRequestTable: internal.DecodeXMLRequest refuses a request only for a
+// content type that is not XML or for a body its XML decoder rejects. What
+// follows the root element — white space, comments, processing instructions
+// (XML 1.0 §2.8: Misc*) — is part of a well-formed document and must not be a
+// reason of its own to refuse it.
+func decodeRequestTable(c *Ctx, pr *PropertyRun, prop string) {
+	p := c.P
+	r := NewRule(prop, prop+".decode-request", "DecodeXMLRequest accepts every document its XML decoder accepts, whatever Misc (white space, comments, processing instructions) follows the root element; it refuses only a non-XML content type or a decoder error, with 400 (E2)")
+	r.Exhaustive = true
+	r.Bounds = "<= 2 tokens after the root element, each white space, a comment or a processing instruction, then end of input or a read error"
+	pr.Rules = append(pr.Rules, r)
+	fn := p.MustFunc(r, pkgInternal, "DecodeXMLRequest")
+	if fn == nil {
+		return
+	}
+	kinds := []string{"CharData", "Comment", "ProcInst", "EOF", "error"}
+	var nTok int
+	spec := DTXSpec{Name: "DecodeXMLRequest", Entry: fn,
+		Sym: SymSpec{NonNil: func(string) bool { return true }},
+		Setup: func(in *Interp) {
+			nTok = 0
+			in.Models = append(in.Models, func(in *Interp, site ssa.CallInstruction, name string, args []Val) (Val, bool) {
+				switch name {
+				case "(*encoding/xml.Decoder).Token", "(*encoding/xml.Decoder).RawToken":
+					i := nTok
+					nTok++
+					k := "EOF"
+					if i < 2 {
+						k = kinds[in.chooseLabeled(fmt.Sprintf("after-root#%d", i), kinds)]
+					}
+					switch k {
+					case "EOF":
+						return Tuple{[]Val{kNil, Iface{Dyn: types.Typ[types.Invalid], V: Opaque{"global:io.EOF", errorType}}}}, true
+					case "error":
+						return Tuple{[]Val{kNil, in.mkErr(&ErrObj{Kind: "ext", Msg: kStr("read error"), Key: "read-error"})}}, true
+					}
+					return Tuple{[]Val{in.xmlTok(k, fmt.Sprintf("blank%d", i)), kNil}}, true
+				case "bytes.TrimSpace":
+					// character data after the root element is white space
+					return Slice{}, true
+				case "strings.TrimSpace":
+					return kStr(""), true
+				}
+				return nil, false
+			}, httpServerModels)
+			in.OpenExternal = openHTTPServer
+		},
+		Args: func(in *Interp) []Val {
+			return []Val{in.symOf(fn.Params[0].Type(), "r"), Iface{Dyn: types.Typ[types.Invalid], V: Opaque{"target", fn.Params[1].Type()}}}
+		},
+		Observe: func(in *Interp, res Val, pan *panicOutcome) string {
+			if pan != nil {
+				return "panic"
+			}
+			if isNilVal(res) {
+				return "accepted"
+			}
+			if code, _, ok := httpErrOf(in, res); ok {
+				return fmt.Sprintf("error %d", code)
+			}
+			return "error"
+		},
+		Oracle: func(env *OracleEnv) ([]string, bool) {
+			ct := "mediatype(header:\"Content-Type\")"
+			isXML := false
+			if !env.Bool("fails:" + ct) {
+				isXML = env.Eq(S(ct), K("application/xml")) || env.Eq(S(ct), K("text/xml"))
+			}
+			if !isXML || env.Bool("fails:xml.Decode") {
+				return []string{"error 400"}, true
+			}
+			// a read error after the root element: the statement is silent
+			for i := 0; i < 2; i++ {
+				k := fmt.Sprintf("after-root#%d", i)
+				if !env.Decided(k) {
+					break
+				}
+				switch kinds[env.ch.choose(k, len(kinds), nil)] {
+				case "error":
+					return nil, false
+				case "EOF":
+					i = 2
+				}
+			}
+			return []string{"accepted"}, true
+		}}
+	res := runDTX(c, spec)
+	reportDTX(c, r, spec, res, "decode-request")
+	r.Role("decision-table")
+	if res.Runs < 3 {
+		r.Unresolved("the table of DecodeXMLRequest has fewer than 3 rows")
+	}
+}
